@@ -1161,10 +1161,23 @@ func (in *Interp) eval(pkg *packages.Package, env *Env, e ast.Expr) Val {
 			}
 		}
 		if mv, ok := base.(MapV); ok {
+			commaOk := false
+			if tv, isTuple := info.Types[e].Type.(*types.Tuple); isTuple && tv.Len() == 2 {
+				commaOk = true
+			}
 			for i, k := range mv.Keys {
 				if t, known := eqVal(k, idx); known && t {
+					if commaOk {
+						return TupleV{mv.Vals[i], boolV(true)}
+					}
 					return mv.Vals[i]
 				}
+			}
+			if commaOk {
+				if _, isStr := idx.(StrV); isStr {
+					return TupleV{Unk{"map miss"}, boolV(false)}
+				}
+				return TupleV{Unk{"map miss"}, Unk{"map miss"}}
 			}
 			return Unk{"map miss"}
 		}
@@ -1248,6 +1261,10 @@ func (in *Interp) evalBinary(pkg *packages.Package, env *Env, x *ast.BinaryExpr)
 			switch x.Op {
 			case token.LSS, token.GTR, token.LEQ, token.GEQ:
 				return boolV(constant.Compare(a.V, x.Op, b.V))
+			case token.ADD, token.SUB, token.MUL:
+				if a.V.Kind() == constant.Int && b.V.Kind() == constant.Int {
+					return ConstV{V: constant.BinaryOp(a.V, x.Op, b.V), T: a.T}
+				}
 			}
 		}
 	}
@@ -1440,6 +1457,13 @@ func (in *Interp) evalCall(pkg *packages.Package, env *Env, call *ast.CallExpr) 
 				}
 				return out
 			case "make", "new":
+				if id.Name == "make" {
+					if t := info.TypeOf(call.Args[0]); t != nil {
+						if _, isSlice := t.Underlying().(*types.Slice); isSlice {
+							return SliceV{}
+						}
+					}
+				}
 				return Unk{id.Name}
 			}
 			for _, a := range call.Args {
@@ -1724,6 +1748,13 @@ func (in *Interp) builderCall(fn *types.Func, call *ast.CallExpr, recv Val, args
 		}
 		return &IRVal{Op: op, Args: []*IRVal{a}, Class: to}
 	case "NewCall":
+		if len(args) > 0 {
+			if sp, ok := args[len(args)-1].(spreadV); ok {
+				if sl, ok := sp.S.(SliceV); ok {
+					args = append(append([]Val{}, args[:len(args)-1]...), sl.Elems...)
+				}
+			}
+		}
 		callee := "?"
 		if f, ok := args[0].(*IRFuncV); ok {
 			callee = f.Name
